@@ -168,13 +168,15 @@ theorem C15_cancel_future_reaches_scope {s s' : State} {o : Out} {c : Nat}
     · rename_i hn; exact absurd ⟨hp, hb⟩ hn
 
 /-- A Future cancelled before its task began: the done-callback runs at once when `_call_func`
-registers it, so the call's scope is cancelled from its first step. -/
+registers it, so -- while the portal is running -- the call's scope is cancelled from its first
+step.  (After `stop()` the callback captured `event_loop_thread_id = None` and does nothing: see
+`C15_by_stop_only_after_stop` and the witness example below.) -/
 theorem C15_cancel_before_begin_reaches_scope {s s' : State} {o : Out} {c : Nat}
-    (hs : step s (.begin c) = some (s', o)) (hf : s.fut c = .done .cancelled) :
-    s'.cancelReq c = true := by
+    (hs : step s (.begin c) = some (s', o)) (hf : s.fut c = .done .cancelled)
+    (hp : s.portal = .running) : s'.cancelReq c = true := by
   simp only [step] at hs
   split at hs
-  · cases hs; simp [hf]
+  · cases hs; simp [hf, hp]
   · contradiction
 
 /-- A call's own scope is cancelled only as a consequence of ITS Future being cancelled, never
